@@ -84,6 +84,7 @@ pub proof fn lemma_un_rr_pf(p: Seq<u8>, off: int, u: Seq<u8>, b: int)
         forall|i: int| 0 <= i < un_rr(p, off).len() ==> u[b + i] == un_rr(p, off)[i],
     ensures pf_rr(u, b), pf_end(u, b) == b + un_rr(p, off).len(), pf_is_opt(u, b) == is_opt(p, off),
         pcs_end(u, b) == Some(b + name_exp(p, off).len()),
+        be16(u, b + name_exp(p, off).len() + 8) == un_rd(p, rec_ne(p, off)).len(),
 {
     let ne = rec_ne(p, off); let t = be16(p, ne); let l = be16(p, ne + 8) as int; let d = ne + 10;
     let nm = name_exp(p, off); let rd = un_rd(p, ne); let w = un_rr(p, off); let nl = nm.len() as int;
